@@ -560,7 +560,8 @@ func c04Run(t *testing.T, c *choice.Stream, r *Result, opt RunOpt, forced *c04Fo
 			conn.Window = c.Pick("window.insert", 8, 8, 64) // an exception or a cut while a data block is half-way out
 		}
 		conn.CloseErr = c.Bool("close_err", 1, 4) // releasing the connection reports an error
-		var inputIdle time.Duration // time an input callback spent waiting for data of its own while the query was alive
+		stuckArmed := false                       // the server has stopped reading (or must not any more)
+		var inputIdle time.Duration               // time an input callback spent waiting for data of its own while the query was alive
 		ctxDeadlineOff := false
 		if sc.kind == "insert" && sc.query.OnInput != nil && forced == nil && (faultName == "exception" || faultName == "bad_code" || faultName == "unexpected") && c.Bool("input.waits", 1, 3) {
 			// a producer that has nothing to hand over yet: the callback waits on the
@@ -604,6 +605,12 @@ func c04Run(t *testing.T, c *choice.Stream, r *Result, opt RunOpt, forced *c04Fo
 		if ctxDeadlineOff {
 			ctxDeadline = 0 // a caller that waits for its producer sets no deadline
 		}
+		if excStuckAfter >= 0 && c.Bool("exc.stuck.deadline", 1, 2) {
+			// ... and the caller's deadline passes a moment after the exception has
+			// arrived, while the sender is still blocked half-way through a block
+			ctxDeadline = time.Duration(c.Pick("exc.stuck.deadline.ms", 50, 300, 800)) * time.Millisecond
+			r.Fire("deadline_shortly_after_exception")
+		}
 		probeLate := c.Bool("probe.late", 1, 2)
 		r.Cell = fmt.Sprintf("%s/%s/comp%d", sc.kind, faultName, cf.Comp)
 		r.Sample = map[string]any{"kind": sc.kind, "fault": faultName, "client_rev": cf.ClientRev, "server_rev": cf.ServerRev, "compression": cf.Comp.String(),
@@ -632,11 +639,10 @@ func c04Run(t *testing.T, c *choice.Stream, r *Result, opt RunOpt, forced *c04Fo
 					conn.Window = 64
 				}
 				// from the instant the exception is out, the server reads only a little more
-				armed := false
 				e.Sim.AddEnv(&sched.EnvFunc{N: "server-stops-reading", E: func() bool {
-					return !armed && srv.ScriptPos() >= len(srv.Script)
+					return !stuckArmed && srv.ScriptPos() >= len(srv.Script)
 				}, R: func() {
-					armed = true
+					stuckArmed = true
 					conn.StopReadAt = conn.PeerViewLen() + excStuckAfter
 					r.Fire("exception_then_server_stops_reading")
 				}})
@@ -708,6 +714,7 @@ func c04Run(t *testing.T, c *choice.Stream, r *Result, opt RunOpt, forced *c04Fo
 			}
 			if excStuckAfter >= 0 {
 				conn.StopReadAt = -1 // the server comes back to life for the usability probe
+				stuckArmed = true    // ... and stays alive: the action may not have had its turn yet
 			}
 			if faultName == "write_err" && conn.Fired["write_err"] == 0 {
 				// the query ended (by the server's exception) before the write side broke:
